@@ -195,6 +195,9 @@ type PathSample struct {
 }
 
 func (j *Job) pathDone(s *State) {
+	if traceSched && s.model != nil {
+		fmt.Println("PATH", fmtModel(s.inputs, s.model), s.sched, s.schedOps)
+	}
 	n := atomic.AddInt64(&j.Paths, 1)
 	j.mu.Lock()
 	for k := range s.reach {
